@@ -183,6 +183,13 @@ def apply(st_, op):
             # the key that becomes a subkey is a complete key of its own (it has an identity): none of that belongs to the new primary
             sub.add_uid(pgpy.PGPUID.new('Former Owner of %s' % skid), usage=_flagset(0x03), created=utc(BASE - 50))
         st_.clock += 1
+        if m.protected and op[3] % 4 == 2:
+            # the caller forgets to unlock: the operation is refused, and a refused operation leaves the key as it was
+            try:
+                key.add_subkey(sub, usage=_flagset(usage), created=utc(BASE + st_.clock))
+            except Exception:   # noqa
+                return
+            raise harness.HarnessError('add_subkey on a locked key was not refused')
         with unlocked(key, m):
             if m.protected:
                 sub.protect('pw-%s' % m.kid, SymmetricKeyAlgorithm.AES128, HashAlgorithm.SHA1)
